@@ -41,29 +41,90 @@ pub trait Item: Sized + Debug + std::fmt::Display + Hash + PartialEq + Default +
     fn grp(&self) -> Grp;
     /// `pos` determines the payload so that a twin built the same way compares equal.
     fn fresh(pos: u32, owner: u8) -> Self;
+    /// The ownership-tracked element at the bottom (`Self` for a leaf, the component type for a
+    /// row/column vector).
+    type Leaf: Leaf;
     /// For row/column vectors of a matrix: the consuming iterator over the line itself.
-    type Inner: Iterator<Item = Tok> + DoubleEndedIterator + ExactSizeIterator + Debug + Hash + PartialEq + 'static;
+    type Inner: Iterator<Item = Self::Leaf> + DoubleEndedIterator + ExactSizeIterator + Debug + Hash + PartialEq + 'static;
     fn into_inner(self) -> Result<Self::Inner, Self>;
 }
 
+/// A single tracked element (as opposed to a row/column vector of them).
+pub trait Leaf: Item {
+    fn lid(&self) -> u32;
+    fn lval(&self) -> u32;
+    fn mk(val: u32, owner: u8) -> Self;
+}
+impl Leaf for Tok {
+    #[inline]
+    fn lid(&self) -> u32 {
+        self.id
+    }
+    #[inline]
+    fn lval(&self) -> u32 {
+        self.val
+    }
+    fn mk(val: u32, owner: u8) -> Self {
+        Tok::new(val, owner)
+    }
+}
+impl Leaf for Wide {
+    #[inline]
+    fn lid(&self) -> u32 {
+        self.inner.id
+    }
+    #[inline]
+    fn lval(&self) -> u32 {
+        self.inner.val
+    }
+    fn mk(val: u32, owner: u8) -> Self {
+        Wide { pad: 0xA5, inner: Tok::new(val, owner) }
+    }
+}
+impl Leaf for tok::Plain {
+    #[inline]
+    fn lid(&self) -> u32 {
+        self.id
+    }
+    #[inline]
+    fn lval(&self) -> u32 {
+        self.val
+    }
+    fn mk(val: u32, owner: u8) -> Self {
+        tok::Plain::new(val, owner)
+    }
+}
+
 /// Placeholder inner iterator for element types that are not themselves containers.
-#[derive(Debug, Hash, PartialEq)]
-pub struct NoInner;
-impl Iterator for NoInner {
-    type Item = Tok;
-    fn next(&mut self) -> Option<Tok> {
+pub struct NoInner<L>(std::marker::PhantomData<L>);
+impl<L> Debug for NoInner<L> {
+    fn fmt(&self, f: &mut std::fmt::Formatter<'_>) -> std::fmt::Result {
+        f.write_str("NoInner")
+    }
+}
+impl<L> Hash for NoInner<L> {
+    fn hash<H: std::hash::Hasher>(&self, _: &mut H) {}
+}
+impl<L> PartialEq for NoInner<L> {
+    fn eq(&self, _: &Self) -> bool {
+        true
+    }
+}
+impl<L> Iterator for NoInner<L> {
+    type Item = L;
+    fn next(&mut self) -> Option<L> {
         None
     }
     fn size_hint(&self) -> (usize, Option<usize>) {
         (0, Some(0))
     }
 }
-impl DoubleEndedIterator for NoInner {
-    fn next_back(&mut self) -> Option<Tok> {
+impl<L> DoubleEndedIterator for NoInner<L> {
+    fn next_back(&mut self) -> Option<L> {
         None
     }
 }
-impl ExactSizeIterator for NoInner {}
+impl<L> ExactSizeIterator for NoInner<L> {}
 
 impl Item for Tok {
     const W: usize = 1;
@@ -75,8 +136,9 @@ impl Item for Tok {
     fn fresh(pos: u32, owner: u8) -> Self {
         Tok::new(pos * 4, owner)
     }
-    type Inner = NoInner;
-    fn into_inner(self) -> Result<NoInner, Self> {
+    type Leaf = Tok;
+    type Inner = NoInner<Tok>;
+    fn into_inner(self) -> Result<NoInner<Tok>, Self> {
         Err(self)
     }
 }
@@ -133,8 +195,9 @@ impl Item for Wide {
     fn fresh(pos: u32, owner: u8) -> Self {
         Wide { pad: 0xA5, inner: Tok::new(pos * 4, owner) }
     }
-    type Inner = NoInner;
-    fn into_inner(self) -> Result<NoInner, Self> {
+    type Leaf = Wide;
+    type Inner = NoInner<Wide>;
+    fn into_inner(self) -> Result<NoInner<Wide>, Self> {
         Err(self)
     }
 }
@@ -149,29 +212,30 @@ impl Item for tok::Plain {
     fn fresh(pos: u32, owner: u8) -> Self {
         tok::Plain::new(pos * 4, owner)
     }
-    type Inner = NoInner;
-    fn into_inner(self) -> Result<NoInner, Self> {
+    type Leaf = tok::Plain;
+    type Inner = NoInner<tok::Plain>;
+    fn into_inner(self) -> Result<NoInner<tok::Plain>, Self> {
         Err(self)
     }
 }
 
 macro_rules! item_vec {
     ($Vec:ident, $n:expr, [$($f:ident)+], [$($i:tt)+]) => {
-        impl Item for vek::vec::repr_c::$Vec<Tok> {
+        impl<L: Leaf> Item for vek::vec::repr_c::$Vec<L> {
             const W: usize = $n;
             #[inline]
             fn grp(&self) -> Grp {
                 let mut g = Grp { n: $n, ids: [0; 4] };
                 $(
-                    tok::check_read("read", self.$f.id, self.$f.val);
-                    g.ids[$i] = self.$f.id;
+                    g.ids[$i] = self.$f.grp().first();
                 )+
                 g
             }
             fn fresh(pos: u32, owner: u8) -> Self {
-                vek::vec::repr_c::$Vec::new($(Tok::new(pos * 4 + $i, owner)),+)
+                vek::vec::repr_c::$Vec::new($(L::mk(pos * 4 + $i, owner)),+)
             }
-            type Inner = <vek::vec::repr_c::$Vec<Tok> as IntoIterator>::IntoIter;
+            type Leaf = L;
+            type Inner = <vek::vec::repr_c::$Vec<L> as IntoIterator>::IntoIter;
             fn into_inner(self) -> Result<Self::Inner, Self> {
                 Ok(self.into_iter())
             }
